@@ -317,6 +317,41 @@ fn c05_tree(r: &Rose, rng: &mut Rng, q: &mut Q, rep: &mut Report, metamorphic: b
     q.case(case.clone());
     q.push(format!("ar.load\t{}", arena_of(&tree)), Kind::Load);
     q.push("sp\tparts".into(), Kind::Exact(real.clone()));
+    if metamorphic && rng.chance(1, 4) {
+        // ---- a tree OBJECT WITH A PAST: the splits were asked, then the object went through a few edit calls — accepted ones and
+        // REFUSED ones (a refused call must leave the tree as it was) — and the documented reset; what is reported then must be
+        // the splits of the tree the arena holds now (brute force over the raw arena), whatever happened before ----
+        let mut st = crate::real::RealState::new();
+        st.tree = tree.clone();
+        let mut script = case.clone();
+        let mut refused = 0;
+        for _ in 0..rng.range(1, 4) {
+            let op = crate::c03::random_op(rng, &st);
+            let (a, _) = st.exec(&op);
+            script.push('\n');
+            script.push_str(&op);
+            if a.starts_with("err") {
+                refused += 1;
+            }
+            if a == "panic" {
+                break;
+            }
+        }
+        st.tree.reset_bipartition_cache();
+        script.push_str("\nreal.reset_cache\nsp.live\tparts");
+        let sl = slots_of(&st.tree);
+        if let Some(now) = live_roots(&sl).first().and_then(|r| rose_of(&sl, *r)) {
+            let uniq = rose_leafset(&now).len() == now.n_leaves() && now.leaf_names().iter().all(|n| n.is_some());
+            if uniq && live_roots(&sl).len() == 1 {
+                rep.count(if refused > 0 { "splits_after_a_history_with_refused_calls" } else { "splits_after_a_history" });
+                let got = real_parts(&st.tree);
+                let want = brute_parts(&now);
+                if got != want {
+                    rep.oracle("splits-after-history", if got.starts_with("ok") { "set-differs" } else { "error" }, &script, &format!("reported {got} expected {want}"));
+                }
+            }
+        }
+    }
     if metamorphic {
         // invariances on the real code
         let r2 = reorder(rng, r);
